@@ -545,6 +545,8 @@ def _concrete_method(name):
                     return h(I, s, *a, **k)
                 raise Unsupported(f"str.{name} on a symbolic string")
             s = c
+        if name == "format":
+            return str_format(I, s, list(a), k)          # structured-string arguments stay structured (same as an f-string)
         a = [x.concrete() if isinstance(x, SStr) else x for x in a]
         if name == "join":
             items = I.iterate(a[0])
